@@ -354,7 +354,19 @@ def rule_sentinel(ctx: Ctx, prog: Program) -> None:
             raise AnalysisError(f"unresolved variable heuristic registration {ent}")
         n += 1
         ctx.fn(ent.fq)
+        # (a) what a variable heuristic answers is used as a shared-domain index: it is the sentinel or an ELEMENT of decision_domains
+        bad_ret = _returns_non_decision_domain(prog, ent)
+        if bad_ret:
+            ctx.violation("R-SENTINEL", ent.path, ent.name, "returns-non-decision-domain", ent.loc(),
+                          f"{ent.name} returns {bad_ret}: the answer is used as a shared-domain index and must be an element of the decision_domains "
+                          "array (or -1); a position in that array is a different thing as soon as decision_domains is not 0..n-1 in order")
+            continue
+        ctx.ok("R-SENTINEL", f"{ent.name}: answers an element of decision_domains or the sentinel")
         okk, why = _never_sentinel_when_open(prog, ent, MIN, MAX)
+        if not okk and why.startswith("expected one scan"):
+            # not the scan idiom (e.g. vectorised): nothing can be said about when the sentinel is answered
+            ctx.undecided_site("R-SENTINEL", f"{ent.name}:sentinel-only-when-closed", f"no element-by-element scan of the decision domains to analyse ({why})")
+            continue
         if okk:
             ctx.ok("R-SENTINEL", f"{ent.name}: answers the 'nothing to branch on' value only when no decision domain is open", sample={"proof": why})
         elif tested:
@@ -365,6 +377,49 @@ def rule_sentinel(ctx: Ctx, prog: Program) -> None:
                           "without testing it")
     ctx.floor("R-SENTINEL:registered-variable-heuristics", n, 4)
     ctx.assume("decision domains determine all other domains: 'all decision domains instantiated but problem unbound' is outside the contract")
+
+
+def _returns_non_decision_domain(prog: Program, fn: FuncInfo) -> Optional[str]:
+    """None when every returned value is -1 or an element of the decision_domains parameter; otherwise a description of the offender."""
+    if len(fn.params) != 4:
+        raise AnalysisError(f"{fn.fq}: a variable heuristic takes 4 parameters")
+    dd = fn.params[1]
+    it = Interp(prog)
+    res = [r for r in it.run(fn) if r.outcome == "return"]
+
+    def is_elem(v: Aff, st: State, loops: List[LoopSummary], depth: int = 0) -> bool:
+        if v.is_const():
+            return v.c == -1
+        at = v.single_atom()
+        if at is None or v.c != 0 or v.t[0][1] != 1:
+            return False
+        if at[0] in ("init", "hav"):
+            root = at[1] if at[0] == "init" else at[2]
+            return root == dd
+        if at[0] == "lv" and depth < 3:
+            # a loop-carried selection: every assignment in the loop gives it an element (or keeps it), and it starts as an element / the sentinel
+            for l in loops:
+                if l.loop_id != at[2]:
+                    continue
+                pre = l.pre_env.get(at[1])
+                if not (isinstance(pre, (Aff, Dual, View)) and is_elem(it.scalar(State(), pre), st, loops, depth + 1)):
+                    return False
+                for bp in l.paths:
+                    nv = bp.state.env.get(at[1])
+                    if nv is None:
+                        continue
+                    sv = it.scalar(bp.state, nv)
+                    if not (sv == Aff.atom(at) or is_elem(sv, bp.state, loops, depth + 1)):
+                        return False
+                return True
+        return False
+
+    for r in res:
+        loops = loops_of(r.state.trace)
+        v = it.scalar(r.state, r.value)
+        if not is_elem(v, r.state, loops):
+            return show_val(v)
+    return None
 
 
 def _never_sentinel_when_open(prog: Program, fn: FuncInfo, MIN: int, MAX: int) -> Tuple[bool, str]:
